@@ -34,17 +34,28 @@ def extract_regex():
             for st in ast.walk(node):
                 if isinstance(st, ast.Assign) and getattr(st.targets[0], "id", None) == "regex":
                     pattern = eval(compile(ast.Expression(st.value), "<regex>", "eval"), {"ST_SAGEMAKER_METRIC_TAG": K.ST_SAGEMAKER_METRIC_TAG})
-                    return pattern, K.ST_SAGEMAKER_METRIC_TAG
+                    flags = 0
+                    for call in ast.walk(node):
+                        if isinstance(call, ast.Call) and getattr(call.func, "attr", None) == "findall":
+                            fl = [k.value for k in call.keywords if k.arg == "flags"] + list(call.args[2:3])
+                            if fl:
+                                flags = eval(compile(ast.Expression(fl[0]), "<flags>", "eval"), {"re": re})
+                    return pattern, K.ST_SAGEMAKER_METRIC_TAG, int(flags)
     raise RuntimeError("regex assignment not found in retrieve()")
 
 
-def parse_pattern(pattern):
-    """supported shape:  <escaped literal prefix> ( \\{ .* \\} )   -> literal prefix text"""
-    m = re.fullmatch(r"((?:\\.|[^\\()\[\]{}.*+?|^$])*)\(\\\{\.\*\\\}\)", pattern)
+def parse_pattern(pattern, flags=0):
+    """supported shapes:  [^] <escaped literal prefix> ( \\{ .* \\} )   with flags 0 or re.MULTILINE
+    -> (literal prefix text, anchored at line start?)"""
+    if flags & ~re.MULTILINE:
+        raise RuntimeError("unsupported regex flags: %r" % flags)
+    anchored = pattern.startswith("^")
+    body = pattern[1:] if anchored else pattern
+    m = re.fullmatch(r"((?:\\.|[^\\()\[\]{}.*+?|^$])*)\(\\\{\.\*\\\}\)", body)
     if not m:
         raise RuntimeError("unsupported regex shape: %r" % pattern)
     lit = re.sub(r"\\(.)", r"\1", m.group(1))
-    return lit
+    return lit, anchored
 
 
 def smt_str(s):
@@ -78,8 +89,8 @@ def model_values(txt):
 
 def framing(ob_d):
     from syne_tune.report import retrieve
-    pattern, tag = extract_regex()
-    lit = parse_pattern(pattern)              # e.g. "[tune-metric]: "
+    pattern, tag, flags = extract_regex()
+    lit, anchored = parse_pattern(pattern, flags)              # e.g. "[tune-metric]: "
     start = lit + "{"
     L = len(lit)
     head = """(set-logic QF_SLIA)
@@ -97,9 +108,11 @@ def framing(ob_d):
 ; greedy .* up to the LAST closing brace of the line
 (assert (= line (str.++ a "}" b)))
 (assert (not (str.contains b "}")))
-(define-fun p () Int (str.indexof line %s 0))
-(define-fun cap () String (str.substr line (+ p %d) (- (+ (str.len a) 1) (+ p %d))))
-""" % (smt_str(lit), smt_str(start), L, L)
+(define-fun p0 () Int (str.indexof line %s 0))
+; an anchored pattern only matches where a line starts (the text before the tag is on the same line)
+(define-fun p () Int %s)
+(define-fun cap () String (ite (>= p 0) (str.substr line (+ p %d) (- (+ (str.len a) 1) (+ p %d))) "<no match>"))
+""" % (smt_str(lit), smt_str(start), "(ite (= p0 0) 0 (- 1))" if anchored else "p0", L, L)
     queries = [
         ("main: protocol line (nothing after the payload, no forged tag before it) -> capture == payload", "unsat",
          '(assert (= suf ""))\n(assert (not (str.contains pre %s)))\n(assert (not (= cap payload)))\n' % smt_str(start)),
@@ -127,19 +140,19 @@ def framing(ob_d):
             # get-value after unsat prints an error line: only that one is tolerated
             if not (first == "unsat" and txt.count("(error") == 1):
                 st["unknown"] += 1
-                st["unknown_reasons"][name] = txt[:200]
+                st["unknown_reasons"][name + " :: " + txt[:160].replace("\n", " ")] = 1
                 st["exhausted"] = False
                 continue
         if first not in ("sat", "unsat"):
             st["unknown"] += 1
-            st["unknown_reasons"][name] = first
+            st["unknown_reasons"][name + " :: " + first[:160]] = 1
             st["exhausted"] = False
             continue
         sample = dict(query=name, expected=expect, answer=first, seconds=round(dt, 2), regex=pattern)
         if first == "sat":
             mv = model_values(txt)
             line = mv.get("pre", "") + lit + "{" + mv.get("body", "") + "}" + mv.get("suf", "")
-            got = re.findall(pattern, line)
+            got = re.findall(pattern, line, flags=flags)
             payload = "{" + mv.get("body", "") + "}"
             sample.update(model=mv, real_findall=got)
             st["validated"] += 1
@@ -155,9 +168,11 @@ def framing(ob_d):
                     json.loads(payload)
                 except Exception:
                     good_json = False
+                real = retrieve([line]) if good_json else None
                 if got != [payload]:
                     st["failed"] += 1
-                    st["fails"].append(dict(code="C18.framing", msg="line %r: captured %r, payload %r" % (line, got, payload), model=mv, reproduced=True))
+                    st["fails"].append(dict(code="C18.framing", msg="log line %r: the regex captures %r, the reported payload is %r (retrieve() -> %r)" % (line, got, payload, real),
+                                            model=mv, reproduced=True))
                 else:
                     st["error"] = "cvc5 model does not reproduce with re.findall: %r" % (mv,)
         else:
@@ -218,14 +233,23 @@ def h_reporter(sym, N=2):
         expected = []
         for i in range(N):
             calls.append(i)
-            kind = sym.choice("kind%d" % i, NKINDS)
+            if i == 0:
+                kind = sym.choice("kind%d" % i, NKINDS)
+                keyk = sym.choice("key%d" % i, 3)
+            else:
+                # later reports: a valid-kind subset (they exist to exercise counter / time stamps / adjacency)
+                kind = (0, 3, 5)[sym.choice("kind%d" % i, 3)]
+                keyk = 0
             name, val, ok, plain = _value(kind)
-            keyk = sym.choice("key%d" % i, 3)
             key = ["loss", "st_loss", "s"][keyk]
             buf = io.StringIO()
             raised = None
+            noise = ["", "progress 50% } ", "other line {\n"][sym.choice("noise%d" % i, 3)]
+            if noise and not noise.endswith("\n"):
+                sym.goal("noise-without-newline")
             try:
                 with contextlib.redirect_stdout(buf):
+                    print(noise, end="")        # arbitrary other output on the same stream, with or without trailing newline
                     rep(**{key: val, "epoch": i + 1})
             except (TypeError, AssertionError) as e:
                 raised = e
@@ -274,8 +298,8 @@ ASSUME = [
 
 def obligations(tier):
     obs = [Ob("C18.a[framing,cvc5]", "props.c18:framing", {}, bounds=dict(lines=1, length="unbounded", queries=5), kind="direct", budget_s=600),
-           Ob("C18.b[reporter,N=2]", "props.c18:h_reporter", dict(N=2), bounds=dict(reports=2, kinds=NKINDS, keys=3),
-              goals=("accepted", "reserved-rejected", "end"), split=(("kind0", tuple(range(NKINDS))),), budget_s=900)]
+           Ob("C18.b[reporter,N=2]", "props.c18:h_reporter", dict(N=2), bounds=dict(reports=2, first_report="13 kinds x 3 keys", later_reports="3 valid kinds", other_output="none / without newline / with newline before each report"),
+              goals=("accepted", "reserved-rejected", "noise-without-newline", "end"), split=(("kind0", tuple(range(NKINDS))),), budget_s=900)]
     if tier != "quick":
         obs.append(Ob("C18.b[reporter,N=3]", "props.c18:h_reporter", dict(N=3), bounds=dict(reports=3, kinds=NKINDS, keys=3),
                       goals=("accepted", "end"), split=(("kind0", tuple(range(NKINDS))), ("key0", (0, 1, 2))), budget_s=1800, may_be_incomplete=True))
